@@ -934,3 +934,38 @@ func ThreadID() int {
 	}
 	return -1
 }
+
+// Quiesce blocks the calling managed thread until no other thread is enabled (background workers have
+// settled: all are done or waiting). Timers are not fired by this call unless nothing else can run.
+func Quiesce() {
+	s, t := curSched()
+	if t == nil {
+		return
+	}
+	s.yield(t, OpWait, 0, func() bool {
+		for _, th := range s.threads {
+			if th == t || th.done {
+				continue
+			}
+			if th.pred == nil || th.pred() {
+				return false
+			}
+		}
+		return true
+	})
+}
+
+// Blocked lists the other threads that are currently waiting (harness diagnostics).
+func Blocked() []string {
+	s, t := curSched()
+	if t == nil {
+		return nil
+	}
+	var out []string
+	for _, th := range s.threads {
+		if th != t && !th.done {
+			out = append(out, fmt.Sprintf("T%d(%s)@%s", th.ID, th.Name, th.op))
+		}
+	}
+	return out
+}
